@@ -1739,3 +1739,10 @@ V('C06', 'fired-handle-cleared-after-delivery', FSM, '''        self._active_tim
             self.event(timed_event)
         finally:
             self._active_timer = None''', 'R06.9')
+
+# ---- C06 R06.7 expiry decision grid (mutation sweep survivors)
+V('C06', 'expiry-test-negated', ADD, "            if ts is not None and ts + exp < time.time():", "            if not (ts is not None and ts + exp < time.time()):", 'R06.7')
+V('C06', 'expiry-boundary-inclusive', ADD, "            if ts is not None and ts + exp < time.time():", "            if ts is not None and ts + exp <= time.time():", 'R06.7')
+V('C06', 'expiry-zero-restored', ADD, "            if exp <= 0.0:\n                return", "            if exp < 0.0:\n                return", 'R06.7')
+V('C06', 'expiry-none-means-never', ADD, "        if (exp := self.expiration) is not None:", "        if (exp := self.expiration or 0.0) is not None:", 'R06.7')
+E('C06', 'expiry-test-rewritten', ADD, "            if ts is not None and ts + exp < time.time():", "            if ts is not None and time.time() - exp > ts:")
